@@ -76,7 +76,7 @@ def observe(p):
     return {"name": p.name, "version": p.version,
             "target": [p.target["name"], [[k, canon(v)] for k, v in p.target["options"].items()]],
             "type": [p.programtype["name"], [[k, canon(v)] for k, v in p.programtype["options"].items()]],
-            "ops": ops, "modes": sorted(repr(m) for m in p.modes), "params": sorted(p.parameters),
+            "ops": ops, "op_keys": [list(o.keys()) for o in p.operations], "modes": sorted(repr(m) for m in p.modes), "params": sorted(p.parameters),
             "vars": sorted([k, canon(v)] for k, v in p.variables.items()), "len": len(p)}
 
 
